@@ -14,7 +14,7 @@ import (
 	"verifharness/reg"
 )
 
-// Class of the recorded finding about publication order: full-text changes of one
+// Class of the (repaired) finding about publication order: full-text changes of one
 // document written back to back, without awaiting the diagnostics in between.
 const classBurst = "unawaited-changes-publication-order"
 
